@@ -1,27 +1,44 @@
 #!/usr/bin/env python3
 """Model-only fuzzing of the pipeline model against its monitors (a test of the
 theorem statements before proving them; not part of any check).
-usage: modelfuzz.py [seed] [n]"""
+usage: modelfuzz.py [seed] [n] [case-to-print]
+env: THEORIES (default: the coq/theories of the tree this script lives in),
+     FIN_P (probability that a universe entry is finalizer-held, default 0.3),
+     FIN_CLAUSE = full | nf | none : which part of the finalizer clause of WF the generated deliveries respect
+       (full: no NotFound and no foreign UID for a finalizer-held object; nf: no NotFound only; none: unrestricted),
+     FIN_WF = full (default) | nf | none : which part of the finalizer clause the boolean WF filter checks.
+   Only runs whose (scenario, cluster) satisfy the boolean WF and kf_freeb are reported."""
 import random, subprocess, sys, os, re
 seed = int(sys.argv[1]) if len(sys.argv) > 1 else 1
 n = int(sys.argv[2]) if len(sys.argv) > 2 else 300
 R = random.Random(seed)
-UNIV = "[mkU KNs None None; mkU KNs None None; mkU KPlain (Some 0) None; mkU KPlain (Some 1) None; mkU KPlain (Some 1) None; mkU KPlain None None; mkU KPlain None None; mkU KNs None None]"
+UKINDS = [("KNs", "None"), ("KNs", "None"), ("KPlain", "(Some 0)"), ("KPlain", "(Some 1)"), ("KPlain", "(Some 1)"), ("KPlain", "None"), ("KPlain", "None"), ("KNs", "None")]
 NID = 8
+FIN_P = float(os.environ.get("FIN_P", "0.3"))
+FIN_CLAUSE = os.environ.get("FIN_CLAUSE", "full")
+FIN_WF = os.environ.get("FIN_WF", "full")
+HERE = os.path.dirname(os.path.realpath(__file__))
+THEORIES = os.environ.get("THEORIES", os.path.join(HERE, "..", "coq", "theories"))
 def b(x): return "true" if x else "false"
 def nl(l): return "[" + "; ".join(str(x) for x in l) + "]"
 def gen():
+    # universe: ~FIN_P of the entries are held by a finalizer
+    fin = [R.random() < FIN_P for _ in range(NID)]
+    focus = R.random() < 0.4     # prune-heavy profile: many tracked objects leave the apply set, no dry-run, few faults
+    univ = "[" + "; ".join("mkUF %s %s None %s" % (k, ns, b(f)) for (k, ns), f in zip(UKINDS, fin)) + "]"
     # cluster
+    uid_of = {}
     objs = []
     exist = [i for i in range(NID - 1) if R.random() < 0.5]
     uid = 10
     tracked = []
     for i in exist:
-        owner = R.choice(["OOurs", "OOurs", "OOurs", "ONone", "OOther"])
+        owner = "OOurs" if (focus and R.random() < 0.7) else R.choice(["OOurs", "OOurs", "OOurs", "ONone", "OOther"])
         keep = R.random() < 0.2
         deps = [d for d in exist if d != i and R.random() < 0.15]
         bad = R.random() < 0.05
         objs.append("mkC %d %d%%N %s %s %s %s %d %s" % (i, uid, owner, b(keep), nl(deps), b(bad), R.randint(1, 2), R.choice(["None", "None", "(Some (mkLA OOurs false [] false 1))", "(Some (mkLA OOurs true [] false 2))"])))
+        uid_of[i] = uid
         uid += 1
         if (owner == "OOurs" and R.random() < 0.9) or R.random() < 0.2:
             tracked.append(i)
@@ -30,18 +47,19 @@ def gen():
     inv = "None" if (not tracked and R.random() < 0.7) else "(Some %s)" % nl(tracked)
     if inv != "None" and 0 not in exist:   # WF: the inventory object lives in namespace 0, which must exist then
         objs.append("mkC 0 %d%%N %s false [] false 1 None" % (uid, R.choice(["OOurs", "ONone"])))
+        uid_of[0] = uid
         uid += 1
     c0 = "mkCl [%s] %s %d%%N" % ("; ".join(objs), inv, uid + 5)
     destroy = R.random() < 0.25
     locs = []
-    lids = [i for i in range(NID) if R.random() < 0.5]
+    lids = [i for i in range(NID) if R.random() < (0.2 if focus else 0.5)]
     for i in lids:
         deps = [d for d in range(NID) if d != i and R.random() < (0.2 if d in lids else 0.03)]
         if R.random() < 0.05 and deps: deps.append(deps[0])
         locs.append("mkL %d %s %s %s %s %d" % (i, nl(deps), b(R.random() < 0.04), b(i == 7 or R.random() < 0.04), b(R.random() < 0.1), R.randint(1, 2)))
-    dry = R.choice(["DNone"] * 4 + ["DClient", "DServer"])
+    dry = "DNone" if focus else R.choice(["DNone"] * 4 + ["DClient", "DServer"])
     opts = "mkO %s %s %s %s %s %s %s %s %s %s %s" % (
-        b(destroy), b(destroy or R.random() < 0.8), R.choice(["PMustMatch", "PAdoptIfNoInventory", "PAdoptAll"]), dry,
+        b(destroy), b(destroy or focus or R.random() < 0.8), R.choice(["PMustMatch", "PAdoptIfNoInventory", "PAdoptAll"]), dry,
         R.choice(["VExitEarly", "VSkipInvalid", "VSkipInvalid"]), b(R.random() < 0.2), b(R.random() < 0.5), b(R.random() < 0.5),
         b(R.random() < 0.3), R.choice(["PropBackground", "PropForeground", "PropOrphan"]), b(R.random() < 0.15))
     waits = []
@@ -49,15 +67,21 @@ def gen():
         ds = []
         for _ in range(R.randint(0, 5)):
             i = R.randrange(NID)
-            ds.append("mkS %d %s %s %d%%N %d%%Z" % (i, R.choice(["SCurrent", "SCurrent", "SCurrent", "SNotFound", "SNotFound", "SInProgress", "SFailed", "STerminating", "SUnknown"]),
-                                                     b(R.random() < 0.8), R.choice([0, 10 + i, 10 + i, 10 + i, 99, 30 + i]), R.choice([1, 2, 2, 3])))
+            st = R.choice(["SCurrent", "SCurrent", "SCurrent", "SNotFound", "SNotFound", "SInProgress", "SFailed", "STerminating", "SUnknown"])
+            u = R.choice([0, uid_of.get(i, 10 + i), uid_of.get(i, 10 + i), 10 + i, 99, 30 + i])
+            if fin[i] and FIN_CLAUSE in ("full", "nf") and st == "SNotFound":
+                st = R.choice(["STerminating", "STerminating", "SCurrent", "SInProgress"])
+            if fin[i] and FIN_CLAUSE == "full" and i in uid_of:
+                u = R.choice([0, uid_of[i]])
+            ds.append("mkS %d %s %s %d%%N %d%%Z" % (i, st, b(R.random() < 0.8), u, R.choice([1, 2, 2, 3])))
         mode = R.random()
-        if mode < 0.5:  # everything reconciles
-            ds += ["mkS %d SCurrent true 0%%N 2%%Z" % i for i in range(NID)] + ["mkS %d SNotFound false 0%%N 0%%Z" % i for i in range(NID)]
+        if mode < 0.5:  # everything reconciles (a finalizer-held object is never reported NotFound: it terminates for ever)
+            ds += ["mkS %d SCurrent true 0%%N 2%%Z" % i for i in range(NID)] + \
+                  [("mkS %d STerminating true 0%%N 2%%Z" if (fin[i] and FIN_CLAUSE != "none") else "mkS %d SNotFound false 0%%N 0%%Z") % i for i in range(NID)]
             R.shuffle(ds)
         waits.append("mkW [%s] %s" % ("; ".join(ds), R.choice(["WTimeout", "WTimeout", "WCancel"])))
     faults = []
-    for _ in range(R.choice([0, 0, 0, 1, 1, 2])):
+    for _ in range(R.choice([0, 0, 0, 0, 0, 1]) if focus else R.choice([0, 0, 0, 1, 1, 2])):
         k = R.randrange(9)
         i = R.randrange(NID)
         faults.append(["FInvList %d" % R.randrange(6), "FInvGet %d" % R.randrange(2), "FInvWrite %d" % R.randrange(3), "FInvDelete", "FNsCreate",
@@ -65,12 +89,39 @@ def gen():
     cancel = R.choice(["CNever"] * 6 + ["CBeforeSync", "(CDuringReq %d)" % R.randrange(NID)])
     werr = "None" if R.random() < 0.9 else "(Some %d)" % R.randrange(3)
     env = "mkE [%s] [%s] %s %s" % ("; ".join(faults), "; ".join(waits), cancel, werr)
-    sc = "mkSc univ (Some 0) [%s] (%s) (%s)" % ("; ".join(locs), opts, env)
+    sc = "mkSc %s (Some 0) [%s] (%s) (%s)" % (univ, "; ".join(locs), opts, env)
     return "((%s), (%s))" % (c0, sc)
 cases = [gen() for _ in range(n)]
 src = """From Coq Require Import List NArith ZArith Bool. Import ListNotations.
 From CliUtils Require Import Model.PipelineTypes Model.Pipeline Corr.CorrPipeline.
-Definition univ := %s.
+(* boolean WF (the clauses of Proofs/PipelineOrphansRun.v, written out here so that the fuzzer only needs Model + Corr) *)
+Fixpoint nodupb (l : list nat) : bool := match l with [] => true | x :: t => negb (memn x t) && nodupb t end.
+Definition fin_ok (sc : scenario) (c0 : cluster) (o : sobs) : bool :=
+  negb (u_fin (uinfo_of sc (s_id o))) ||
+  ((%s || negb (kst_eqb (s_st o) SNotFound)) &&
+   (%s || negb (s_body o) || N.eqb (s_uid o) 0 ||
+    match find_obj (objs c0) (s_id o) with Some c => N.eqb (s_uid o) (c_uid c) | None => true end)).
+Definition wfb (sc : scenario) (c0 : cluster) : bool :=
+  (o_destroy (sc_opts sc) || nodupb (map l_id (sc_local sc)))
+  && nodupb (map c_id (objs c0))
+  && forallb (fun c => N.ltb (c_uid c) (next_uid c0)) (objs c0)
+  && forallb (fun c => forallb (fun c' => negb (N.eqb (c_uid c) (c_uid c')) || Nat.eqb (c_id c) (c_id c')) (objs c0)) (objs c0)
+  && match sc_inv_ns sc, inv c0 with Some n, Some l => memn n (map c_id (objs c0)) || memn n l | _, _ => true end
+  && (negb (o_destroy (sc_opts sc)) || o_prune (sc_opts sc))
+  && forallb (fun w => forallb (fin_ok sc c0) (w_deliv w)) (e_waits (sc_env sc)).
+Definition kf_patternb (prev : list id) (t : list item) : bool :=
+  existsb (fun it =>
+    match it with
+    | IReq (RNsCreate n) true _ _ =>
+        negb (memn n prev)
+        && existsb (fun x => match x with IEv (EStarted (GInvSet, 0)) => true | _ => false end) t
+        && existsb (fun x => match x with
+                             | IEv (EApply _ n' AFail) | IEv (EApply _ n' ASkip) => Nat.eqb n n'
+                             | _ => false end) t
+    | _ => false
+    end) t.
+Definition okb (sc : scenario) (c0 : cluster) (out : outcome) : bool :=
+  wfb sc c0 && negb (kf_patternb (prev_of c0) (out_trace out)).
 Definition cases : list (cluster * scenario) := [
 %s
 ].
@@ -82,13 +133,25 @@ Definition res := Eval vm_compute in
      (* second run from the final state: histories *)
      let out2 := run sc (out_final out) in
      let ms2 := mon_all sc (out_final out) out2 in
+     (* a run outside WF / inside the known finding is reported as all-true *)
+     let ms := if okb sc c out then ms else map (fun _ => true) ms in
+     let ms2 := if okb sc c out && okb sc (out_final out) out2 then ms2 else map (fun _ => true) ms2 in
      if forallb (fun x => x) (ms ++ ms2) then [] else [(k, ms, ms2)]) (idx 0 cases).
 Print res.
-""" % (UNIV, ";\n".join(cases))
-d = "/tmp/modelfuzz_%d" % seed
+Definition stats := Eval vm_compute in
+  (length (filter (fun p => let '(c, sc) := p in okb sc c (run sc c)) cases),
+   length (filter (fun p => let '(c, sc) := p in
+                    existsb (fun it => match it with IReq (RDelete i _ _) true _ _ => u_fin (uinfo_of sc i) | _ => false end)
+                            (out_trace (run sc c))) cases),
+   length (filter (fun p => let '(c, sc) := p in let out := run sc c in
+                    existsb (fun it => match it with IReq (RDelete i _ _) true _ _ => u_fin (uinfo_of sc i) | _ => false end) (out_trace out)
+                    && existsb (fun it => match it with IEv (EStarted (GInvSet, 0)) => true | _ => false end) (out_trace out)) cases)).
+Print stats.
+""" % (b(FIN_WF == "none"), b(FIN_WF != "full"), ";\n".join(cases))
+d = "/tmp/modelfuzz_fin_%d" % seed
 os.makedirs(d, exist_ok=True)
 open(d + "/f.v", "w").write(src)
-p = subprocess.run(["coqc", "-Q", os.environ.get("THEORIES", "/verif/coq/theories"), "CliUtils", "f.v"], cwd=d, capture_output=True, text=True)
+p = subprocess.run(["coqc", "-Q", THEORIES, "CliUtils", "f.v"], cwd=d, capture_output=True, text=True)
 out = p.stdout + p.stderr
 NAMES = ["C01", "C02", "C03", "C04", "C05", "C10", "C11", "C12", "C13", "C04obs"]
 if "Error" in out: print(out[-2000:])
@@ -99,4 +162,6 @@ for m in re.finditer(r"\((\d+), \[([a-z; ]+)\], \[([a-z; ]+)\]\)", flat):
     print("case", m.group(1), "run1 fails", f1, "run2 fails", f2)
     if len(sys.argv) > 3 and sys.argv[3] == m.group(1):
         print(re.sub(r"mkW \[[^\]]*\] W\w+", "mkW..", cases[int(m.group(1))]))
+m = re.search(r"stats = \((\d+), (\d+), (\d+)\)", flat)
+if m: print("WF+kf_free first runs: %s/%d; runs with an accepted DELETE of a finalizer-held object: %s (of which reach inventory-set: %s)" % (m.group(1), n, m.group(2), m.group(3)))
 print("done", n)
